@@ -44,7 +44,8 @@ Section Sim.
     si_rem_intent : forall t i d, at_t s t (ORemove i) (TRemIntent d) -> get (c_store s) i = Some d;
     si_rem_deleted : forall t i d, at_t s t (ORemove i) (TRemDeleted d) -> get (c_store s) i = None;
     si_created : forall t d i, at_t s t (OAdd d) (TAddCreated i) -> get (c_store s) i = Some d;
-    si_exec : seq_exec (abs (init docs0 ops0), map fst docs0) (c_lin s) (abs s, used s) }.
+    si_exec : seq_exec (abs (init docs0 ops0), map fst docs0) (c_lin s) (abs s, used s);
+    si_get_used : forall t i h, at_t s t (OGet i h) TGetChecked -> In i (used s) }.
 
   Ltac prep :=
     match goal with
@@ -345,6 +346,18 @@ Section Sim.
       apply Z.eqb_eq in E. subst. rewrite Hn. destruct (mem i (c_bitmap s)); auto.
     - (* flush: linearization point *) eapply (exec_snoc_same s _ t OFlush RFlushed); [exact EX|reflexivity|exact I|]. apply sq_flush; auto.
     - (* flush: persist *) apply (exec_stutter s); auto.
+    - (* get: bitmap check passed *) apply (exec_stutter s); auto.
+    - (* get of an unregistered id *)
+      eapply (exec_snoc_same s _ t (OGet i h) RNotFound); [exact EX|reflexivity|exact I|]. apply sq_get_missing; auto. unfold abs. rewrite H0. reflexivity.
+    - (* get: the read *)
+      assert (Hm : mem i (c_bitmap s) = true).
+      { destruct (si_store _ HS _ _ H0) as [M|(t2 & d' & A2)]; auto. exfalso.
+        exact (ii_used_fresh _ _ HI i t2 _ _ (si_get_used _ HS _ _ _ H) A2 eq_refl). }
+      eapply (exec_snoc_same s _ t (OGet i h) (RDoc d)); [exact EX|reflexivity|exact I|]. apply sq_get; auto.
+      unfold abs. rewrite Hm. auto.
+    - (* get: document gone *)
+      eapply (exec_snoc_same s _ t (OGet i h) RNotFound); [exact EX|reflexivity|exact I|]. apply sq_get_missing; auto.
+      unfold abs. rewrite H0. destruct (mem i (c_bitmap s)); auto.
   Qed.
 
   Lemma sim_step s t l s' : mutex s -> ids_inv s -> sim_inv s -> cstep s t l s' -> sim_inv s'.
@@ -356,7 +369,7 @@ Section Sim.
     assert (Hat0 := proj1 Hu).
     constructor.
     - (* bitmap within used *)
-      intros i Hi. destruct HS as [BU _ _ _ _ _ _ _ _].
+      intros i Hi. destruct HS as [BU _ _ _ _ _ _ _ _ _].
       inversion Hst; subst; simpl in *; auto;
         try (rewrite mem_remove in Hi; destruct (Z.eqb i i0); [discriminate|auto]).
       rewrite mem_cons in Hi. apply orb_true_iff in Hi. destruct Hi as [E|Hi].
@@ -382,6 +395,10 @@ Section Sim.
     - eapply sim_rem_deleted; eauto.
     - eapply sim_created; eauto.
     - eapply sim_exec; eauto.
+    - intros t2 i h A2.
+      destruct (at_after _ _ _ _ _ _ _ _ _ Hu A2) as [(E1 & E2 & E3)|(N & B)].
+      + subst t2. clear Hu E2 E3. apply Hmono. self_case Hst A2. eapply (si_bitmap_used _ HS); eauto.
+      + apply Hmono. eapply (si_get_used _ HS); eauto.
   Qed.
 
   Lemma get_some_in m i d : get m i = Some d -> In i (map fst m).
@@ -405,6 +422,7 @@ Section Sim.
     - intros t i d A; apply H in A; discriminate.
     - intros t d i A; apply H in A; discriminate.
     - constructor. auto.
+    - intros t i h A; apply H in A; discriminate.
   Qed.
 
   Theorem reach_sim s : reach (init docs0 ops0) s -> sim_inv s.
@@ -478,8 +496,8 @@ Section Sim.
     - subst f. clear Hu E2 E3. self_case Hst A2. reflexivity.
     - rewrite (IH _ _ B).
       assert (HX : holds_excl s f) by (exists OFlush, (TFlushSnap ids); split; auto).
-      assert (Hrun : forall o p, at_t s t o p -> is_flush o = false -> running p = true -> False).
-      { intros o p A F Rn. apply (MS f t HX). exists o, p. split; auto. unfold holds_shared_t; simpl. rewrite F, Rn. auto. }
+      assert (Hrun : forall o p, at_t s t o p -> is_flush o = false -> is_read o = false -> running p = true -> False).
+      { intros o p A F F2 Rn. apply (MS f t HX). exists o, p. split; auto. unfold holds_shared_t; simpl. rewrite F, F2, Rn. auto. }
       destruct (cstep_effect _ _ _ _ Hst) as [ES EB NC|d0 i A ES EB A'|i u d0 A G ES EB|i d0 A ES EB|d0 i A ES EB|i A ES EB];
         try (symmetry; exact EB); exfalso.
       + eapply Hrun; eauto.
